@@ -157,6 +157,31 @@ def evaluate(case):
             inf = _o.xor if op == "op" else _o.or_
             _form(lambda: inf([x], y), f"[a] {'^' if op == 'op' else '|'} b")
             _form(lambda: inf(lambda: x, y), f"(lambda: a) {'^' if op == 'op' else '|'} b")
+    # the very same object on both sides (x op x), method and infix form
+    if len(ka) <= 16 and not (ref.d >= 6 and len(ka) > 6):
+        expxx = getattr(Rr, op)(da, da)
+        forms = [(f"x.{op}(x)", lambda: getattr(x, op)(x))]
+        if op == "op":
+            forms.append(("x ^ x", lambda: x ^ x))
+        elif op == "ip":
+            forms.append(("x | x", lambda: x | x))
+        for what, fn in forms:
+            gxx = kd.to_dict(_call(fn, "definition", op), op=op)
+            ok, why = kd.elem_equal(gxx, expxx)
+            if not ok:
+                raise Violation("definition", op, f"{what} with the same object on both sides (keys {ka}): {why}",
+                                observed=kd.show(gxx), expected=kd.show(expxx))
+        counters["checked:same-object"] = 1
+    # a literal number as operand inside a compiled (registered) function
+    if case["mode"] == "frac" and len(ka) <= 8 and ref.d <= 5 and not case.get("graded"):
+        def f_r(a, _op=op):
+            return getattr(a, _op)(3)
+        gr = kd.to_dict(_call(lambda: alg.register(f_r)(x), "definition", op), op=op)
+        er = getattr(Rr, op)(da, {0: 3})
+        ok, why = kd.elem_equal(gr, er)
+        if not ok:
+            raise Violation("definition", op, f"alg.register(lambda a: a.{op}(3))(a) with keys {ka}: {why}", observed=kd.show(gr), expected=kd.show(er))
+        counters["checked:registered-literal"] = 1
     # consequences on kingdon's own outputs
     gpk = kd.to_dict(_call(lambda: x * y, "consistent-with-gp", "gp"), op="gp")
     if op in ("cp", "acp"):
